@@ -20,7 +20,7 @@ META = {
                    "(and nothing panics: C04). R09.pattern: the require/last-argument/string-literal pattern and the >= 32 threshold are checked by C05-C08's spec comparison.",
     "assumptions": ["PartialOrd on (i32,i32,i32) is lexicographic (std contract)",
                     "R09.extract interprets the version pattern literal with Python's re on a finite grid of pragma spellings (the regex crate's engine is trusted to agree on this fragment)"],
-    "floors": {"R09.walker": 1, "R09.formula": 4, "R09.compl": 1, "R09.pragma": 4, "R09.extract": 3, "R09.none": 4, "R09.pattern.must": 4, "R09.pattern.mustnot": 4},
+    "floors": {"R09.walker": 1, "R09.formula": 4, "R09.compl": 1, "R09.pragma": 5, "R09.extract": 3, "R09.none": 4, "R09.pattern.must": 4, "R09.pattern.mustnot": 4},
 }
 
 VERSION_FN = "analyzer::utils::get_solidity_version_from_source_unit"
@@ -199,6 +199,20 @@ def run(ctx, crate):
     obs.append(Ob("R09.pragma", VERSION_FN, "a version is produced only from a directive named solidity", ok,
                   expected="every Some(..) return guarded by PragmaDirective.1.name == \"solidity\"", found=why or "guarded",
                   example="pragma experimental ABIEncoderV2; pragma solidity 0.8.14;"))
+    # directives with another name are skipped, not an end of the search: the loop over the directives is left early only under name == "solidity"
+    import order as O
+    bad_exits = []
+    for lp in O.loops_of_body(vb):
+        if "PragmaDirective" not in show(lp.iterable):
+            continue
+        for (x, t_) in lp.exits()[1]:
+            g = S.block_guard(vb, t_) or []
+            for c in g:
+                if not any(a.startswith("eq(") and a.endswith(', "solidity")') and "PragmaDirective.1" in a for a in c):
+                    bad_exits.append("line %d" % vb.blocks[x]["tloc"]["line"])
+    obs.append(Ob("R09.pragma", VERSION_FN, "other pragmas are skipped: the search ends early only at a directive named solidity", not bad_exits,
+                  expected="every break / return inside the loop over the directives is guarded by PragmaDirective.1.name == \"solidity\"",
+                  found=sorted(set(bad_exits)) or "solidity only", example="pragma experimental ABIEncoderV2; pragma solidity 0.8.14;"))
     # a directive named solidity yields no version only when one of its three components is missing or does not parse
     nones = [(g, v) for (g, v) in tab if v[0] == "agg" and v[2].endswith("Option::None")]
     comp_calls = [s for s in S.call_sites(vb) if s.path == "std::iter::Iterator::next" and T.calls_in(s.args[0], "get_solidity_major_minor_patch_version")]
